@@ -181,8 +181,21 @@ func (g *gWorld) applyExchange(op *gOp, ent *gEnt, targetOK func(int) bool) stri
 		if ent == nil || !ent.alive || len(rem) == 0 || !g.entHasAll(ent, rem) {
 			return ""
 		}
-		ex.Remove(ent.h)
-		g.Wc.Remove(ent.h, remIDs...)
+		if keep := g.relOf(ent); keep >= 0 && relIn(rem) != keep && op.T != -2 && targetOK(op.T) {
+			// with a target for the relation component the entity keeps: one call (one event) that
+			// removes the components and re-targets
+			g.exchWithRelation(ex, keep)
+			ex.Remove(ent.h, g.handle(op.T))
+			g.Wc.Relations().Exchange(ent.h, nil, remIDs, g.ids[keep], g.handle(op.T))
+			ent.target = -1
+			if op.T >= 0 {
+				ent.target = op.T
+			}
+			g.label("Exchange.Remove with a target")
+		} else {
+			ex.Remove(ent.h)
+			g.Wc.Remove(ent.h, remIDs...)
+		}
 		for _, c := range rem {
 			delete(ent.comps, c)
 			if isRelType(c) {
@@ -553,6 +566,9 @@ func runGenericCase(c *gReplay) (string, map[string]bool, bool) {
 // runGenericCaseW is runGenericCase returning the worlds as well.
 func runGenericCaseW(c *gReplay) (string, *gWorld) {
 	g := newGWorld(c.Cap)
+	if c.Listen {
+		g.listen()
+	}
 	for k := range c.Ops {
 		op := &c.Ops[k]
 		var msg string
@@ -815,7 +831,11 @@ func runGenericProp(t *testing.T, gp *genericProp) {
 			defer cs.End()
 			cs.Label("focus adapter " + gAdapters[focus].Name)
 			cs.Sample(func() any { return c })
+			c.Listen = rapid.Bool().Draw(rt, "listen")
 			g := newGWorld(c.Cap)
+			if c.Listen {
+				g.listen()
+			}
 			g.illWeight = gp.IllWeight
 			aborted := false
 			fail := func(msg string) {
